@@ -500,6 +500,15 @@ func (v *Verifier) finish(r *Root, e *Enc) {
 			}
 		}
 	}
+	if len(e.rets) > 1 {
+		for i, rt := range e.rets {
+			if !rt.okRet {
+				continue // defensive error returns may be dead code; only success returns must be reachable
+			}
+			r.addObl(&Obligation{Name: fmt.Sprintf("%s#cover@return.%d", r.fnShort, i+1), Kind: "cover", Goal: rt.reach, ExpSat: true,
+				Src: fmt.Sprintf("return site %d (in control-flow order) is reachable under all assumptions: no operation before it always panics", i+1)})
+		}
+	}
 	r.addObl(&Obligation{Name: r.fnShort + "#cover@return", Kind: "cover", Goal: retReach, ExpSat: true, Src: "some return is reachable under all assumptions"})
 }
 
